@@ -110,7 +110,8 @@ package ptracer
 //@ func iface:ptracer.Handler.Handle
 //@   assumed "interface contract every Handler implementation is checked against (runner/ptrace.tracerHandler.Handle refines it)"
 //@   params h ctx
-//@   assigns ctx.regs.Rax, UseVMReadv, Q._all
+//@   assigns ctx.regs.Rax, UseVMReadv, Q._all, T.disp_count, T.disp_pid, T.disp_act
+//@   ensures T.disp_count == old(T.disp_count) + 1 && T.disp_pid == ctx.Pid && T.disp_act == int(result)
 
 //@ func iface:ptracer.Handler.Debug
 //@   assumed "logging only"
@@ -133,8 +134,14 @@ package ptracer
 //@ func ptracer.(*ptraceHandle).handleTrap props C03 C15
 //@   arith bv
 //@   requires ph.Tracer != nil && ph.Tracer.Handler != nil
-//@   assigns T.setregs_count, T.setregs_orig_rax, T.setregs_rax, T.setregs_pid, UseVMReadv, Q._all
+//@   assigns T.setregs_count, T.setregs_orig_rax, T.setregs_rax, T.setregs_pid, UseVMReadv, Q._all, T.disp_count, T.disp_pid, T.disp_act
 //@   callsite skipSyscall: assert @C03 c.Pid == pid
+// the handler is asked exactly once about this pid's trap (or the trap context could not be read: an error,
+// which ends the run); ban = one register write that cancels the call; kill = an error; allow = nil, no write
+//@   ensures @C03 (T.disp_count == old(T.disp_count) + 1 && T.disp_pid == pid) || (result != nil && T.disp_count == old(T.disp_count))
+//@   ensures @C03 T.disp_count == old(T.disp_count) + 1 && T.disp_act == 1 ==> T.setregs_count == old(T.setregs_count) + 1
+//@   ensures @C03 T.disp_count == old(T.disp_count) + 1 && T.disp_act == 2 ==> result != nil && T.setregs_count == old(T.setregs_count)
+//@   ensures @C03 T.disp_count == old(T.disp_count) + 1 && T.disp_act == 0 ==> result == nil && T.setregs_count == old(T.setregs_count)
 //@   ensures T.setregs_count == old(T.setregs_count) || (T.setregs_count == old(T.setregs_count) + 1 && T.setregs_orig_rax == 18446744073709551615 && T.setregs_pid == pid)
 
 //@ func ptracer.(*Tracer).checkUsage props C08 C09
@@ -153,7 +160,14 @@ package ptracer
 //@   requires ph.Tracer != nil && ph.Tracer.Handler != nil && ph.traced != nil
 //@   requires forall q int :: has(ph.traced, q) && ph.traced[q] ==> T.options[q] == 1048734
 //@   ensures @C03 forall q int :: has(ph.traced, q) && ph.traced[q] ==> T.options[q] == 1048734 || int(status) == 8
-//@   assigns ph.execved, ph.fTime, mapof(ph.traced), T.cont_count, T.options, T.setregs_count, T.setregs_orig_rax, T.setregs_rax, T.setregs_pid, UseVMReadv, Q._all
+//@   assigns ph.execved, ph.fTime, mapof(ph.traced), T.cont_count, T.options, T.setregs_count, T.setregs_orig_rax, T.setregs_rax, T.setregs_pid, UseVMReadv, Q._all, T.disp_count, T.disp_pid, T.disp_act
+// once the target image has been exec'ed it stays so; from then on every seccomp stop of every process is put
+// to the handler (7 = PTRACE_EVENT_SECCOMP, 4 = PTRACE_EVENT_EXEC in bits 16.. of the wait status), and a kill
+// verdict ends the run as Disallowed Syscall (5)
+//@   ensures @C03 old(ph.execved) ==> ph.execved
+//@   ensures @C03 ws_stopped(uint32(wstatus)) && ws_stopsig(uint32(wstatus)) == 5 && uint32(wstatus) >> 16 == 4 && int(status) != 8 ==> ph.execved
+//@   ensures @C03 ws_stopped(uint32(wstatus)) && ws_stopsig(uint32(wstatus)) == 5 && uint32(wstatus) >> 16 == 7 && old(ph.execved) && int(status) == 1 ==> T.disp_count == old(T.disp_count) + 1 && T.disp_pid == pid && T.disp_act != 2
+//@   ensures @C03 !(ws_stopped(uint32(wstatus)) && ws_stopsig(uint32(wstatus)) == 5 && uint32(wstatus) >> 16 == 7 && old(ph.execved)) ==> T.disp_count == old(T.disp_count)
 //@   ensures @C09 pid == old(ph.pgid) && ws_exited(uint32(wstatus)) && old(ph.execved) ==> finished && int(status) == status_of_exit(ws_exitcode(uint32(wstatus))) && exitStatus == ws_exitcode(uint32(wstatus))
 //@   ensures @C09 @C15 pid == old(ph.pgid) && ws_exited(uint32(wstatus)) && !old(ph.execved) ==> finished && int(status) == 8 && len(errStr) > 0
 //@   ensures @C08 @C09 pid == old(ph.pgid) && ws_signaled(uint32(wstatus)) ==> int(status) == status_of_signal(ws_termsig(uint32(wstatus))) && exitStatus == ws_termsig(uint32(wstatus))
@@ -194,7 +208,7 @@ package ptracer
 //@ func ptracer.(*Tracer).trace props C08 C09 C12 C15
 //@   arith bv
 //@   requires t != nil && t.Handler != nil
-//@   assigns T.cont_count, T.options, T.setregs_count, T.setregs_orig_rax, T.setregs_rax, T.setregs_pid, T.kill_count, T.kill_last_pid, T.kill_last_sig, UseVMReadv, Q._all
+//@   assigns T.cont_count, T.options, T.setregs_count, T.setregs_orig_rax, T.setregs_rax, T.setregs_pid, T.kill_count, T.kill_last_pid, T.kill_last_sig, UseVMReadv, Q._all, T.disp_count, T.disp_pid, T.disp_act
 //@   loop 0: invariant t == old(t) && pgid == old(pgid) && cancel != nil
 //@   loop 0: invariant ph != nil && fresh(ph) && ph.Tracer == t && ph.traced != nil && fresh(ph.traced) && ph.pgid == pgid
 //@   loop 0: invariant forall q int :: has(ph.traced, q) && ph.traced[q] ==> T.options[q] == 1048734
